@@ -41,6 +41,7 @@ type WorldJSON struct {
 		Skew       int      `json:"skew"`      // client clock skew, seconds
 		AT         string   `json:"at"`
 		Assert     bool     `json:"assert"`
+		Method     string   `json:"method"` // "unset": the registration names no auth method (empty string = client_secret_basic by default)
 	} `json:"clients"`
 	Users []string `json:"users"`
 	URIs  []string `json:"uris"`
@@ -115,7 +116,7 @@ func BuildRegs(w *WorldJSON) []*modelstore.ClientReg {
 	for _, id := range ids {
 		c := w.Clients[id]
 		r := &modelstore.ClientReg{ID: id, Auth: c.Auth, App: c.App, Grants: c.Grants, RTypes: c.RTypes,
-			ATType: c.AT, IDTLifetime: time.Hour, ExtraScopes: []string{"api"}, Assertion: c.Assert}
+			ATType: c.AT, IDTLifetime: time.Hour, ExtraScopes: []string{"api"}, Assertion: c.Assert, MethodUnset: c.Method == "unset" && c.Auth == "basic"}
 		if c.Auth == "basic" || c.Auth == "post" {
 			r.Secret = Secret(id)
 		}
